@@ -14,11 +14,10 @@
     proposed_fixes/C06-*.diff applied:
       - an extensible INTEGER constraint selects the variable signed form,
       - the presence bitmap's unused-bits octet is (-n) mod 8,
-      - an extension addition that cannot be encoded (EncodeError) is absent
-        and the following additions are still encoded.
-    [strict = true] additionally propagates an EncodeError raised inside a
-    present addition instead of dropping the addition (used to delimit the
-    region where the library loses data silently, finding C12 #20).
+      - a mandatory extension addition that is not in the value is absent and
+        the following additions are still encoded at their own bit positions;
+        an EncodeError raised inside a present addition propagates (the
+        part shared with proposed_fixes/C12-addition-errors.diff).
 
     Outcomes: [Err EEncode/EDecode/EOutOfData] library errors,
     [Err (EForeign k)] foreign Python exceptions, [Err EFuel] fuel exhausted,
@@ -104,7 +103,7 @@ Fixpoint find_name (z : Z) (l : list (string * Z)) : option string :=
 
 (** * Encoder *)
 Section Enc.
-  Context (strict numeric : bool) (e : env) (rec : ty -> value -> result (list Z)).
+  Context (numeric : bool) (e : env) (rec : ty -> value -> result (list Z)).
 
   Definition enc_int (c : intc) (z : Z) : result (list Z) :=
     match int_form_of c with
@@ -119,11 +118,9 @@ Section Enc.
   Definition enc_enum_value (z : Z) : result (list Z) :=
     if (0 <=? z) && (z <=? 127) then Ok [z]
     else
-      let* bs := enc_sint_var z in
-      match bs with
-      | b :: r => Ok ((if b <? 128 then b + 128 else b) :: r)
-      | [] => Err EUnmodelled
-      end.
+      let k := slen z in
+      if 128 <=? k then Err EUnmodelled      (* long-form length determinant: set_bit is a no-op, garbage *)
+      else Ok ((128 + k) :: be_bytes (Z.to_nat k) z).
 
   Definition enc_enum (root : list (string * Z)) (ext : option (list (string * Z))) (v : value)
     : result (list Z) :=
@@ -198,9 +195,9 @@ Section Enc.
       end
     end.
 
-  (** MembersType.encode_additions, the loop (repaired: per-addition
-      try/except).  One presence bit per addition, the encodings of the
-      present ones. *)
+  (** MembersType.encode_additions, the loop (repaired: try/except per
+      addition; only the location-free "member not found" error is ignored).
+      One presence bit per addition, the encodings of the present ones. *)
   Fixpoint enc_adds (ms : list (member_of ty)) (fs : list (string * value))
     : result (list bool * list (list Z)) :=
     match ms with
@@ -208,13 +205,8 @@ Section Enc.
     | m :: ms' =>
       match lookup (m_name m) fs with
       | Some v =>
-        match rec (m_ty m) v with
-        | Ok b => let* (p, es) := enc_adds ms' fs in Ok (true :: p, b :: es)
-        | Err EEncode =>
-          if strict then Err EEncode
-          else let* (p, es) := enc_adds ms' fs in Ok (false :: p, es)
-        | Err x => Err x
-        end
+        let* b := rec (m_ty m) v in
+        let* (p, es) := enc_adds ms' fs in Ok (true :: p, b :: es)
       | None => let* (p, es) := enc_adds ms' fs in Ok (false :: p, es)
       end
     end.
@@ -297,15 +289,12 @@ Section Enc.
     end.
 End Enc.
 
-Fixpoint oer_encode_gen (strict numeric : bool) (fuel : nat) (e : env) (t : ty) (v : value)
+Fixpoint oer_encode (numeric : bool) (fuel : nat) (e : env) (t : ty) (v : value)
   : result (list Z) :=
   match fuel with
   | O => Err EFuel
-  | S f => enc_step strict numeric e (oer_encode_gen strict numeric f e) t v
+  | S f => enc_step numeric e (oer_encode numeric f e) t v
   end.
-
-Definition oer_encode (numeric : bool) (fuel : nat) (e : env) (t : ty) (v : value)
-  : result (list Z) := oer_encode_gen false numeric fuel e t v.
 
 (** * Decoder *)
 Section Dec.
